@@ -90,6 +90,9 @@ def _format_extras(name: str, nsmap: dict) -> str:
     if match is not None:
         uri = match.group(1)
         target = match.group(2)
+        if uri == "http://www.w3.org/XML/1998/namespace":
+            # The xml prefix is bound implicitly and never listed in nsmap
+            nsname = f"xml:{target}"
         for k, v in nsmap.items():
             if uri == v:
                 nsname = f"{k}:{target}"
